@@ -21,6 +21,7 @@ Every prompt runs under a watchdog.
 from __future__ import annotations
 
 import asyncio
+import io
 import itertools
 import json
 import logging
@@ -40,7 +41,9 @@ from prompt_toolkit.input import typeahead as _typeahead
 from prompt_toolkit.input import vt100 as _vt100
 from prompt_toolkit.key_binding.key_processor import _Flush
 from prompt_toolkit.keys import Keys
+from prompt_toolkit.data_structures import Size
 from prompt_toolkit.output import DummyOutput
+from prompt_toolkit.output.vt100 import Vt100_Output
 
 # a broken tree makes asyncio log thousands of tracebacks; the verdict does not need them
 logging.getLogger("asyncio").setLevel(logging.CRITICAL)
@@ -50,11 +53,13 @@ DRIVER = "drv_c17"
 PROPS = ["Ptk.Props.C17", "Ptk.Props.C17Buf"]
 LEVEL_TEXT = ("Lean 4 theorems over two executable models of the accept boundary, for EVERY schedule of writes / reads "
               "of any size / starts / timer expiries / finishes and every CPR placement. Layer 1 (process_keys with "
-              "the is_done gate, c-j re-feed, run_async type-ahead replay / read guard / store_typeahead): no key "
+              "the is_done gate, c-j re-feed, run_async type-ahead replay / read guard / CPR wait of the exit path / "
+              "store_typeahead): no key "
               "lost, duplicated or reordered; results = the segments of the typed key stream; k lines -> k prompts "
               "(a fair schedule finishes all k); accepted line frozen; CPR never text; termination. Layer 2 (key "
               "buffer of KeyProcessor._process: multi-key bindings, prefix waiting, retry loop, flush timer, "
-              "push-back on exit, CPR outside the buffer) for EVERY state-dependent binding registry: conservation, "
+              "push-back on exit, CPR outside the buffer, numeric argument) for EVERY state-dependent binding registry: "
+              "conservation, a CPR changes neither the argument nor what the next key does, "
               "nothing dispatched after the exiting call, no double exit, key buffer empty at exit. Both models are "
               "tied to /repo on every run by a step-by-step correspondence on explicit schedules, an end-to-end "
               "correspondence (k prompts on one pipe: pre-fed, writer thread, writer task, byte-level chunking) and "
@@ -75,11 +80,13 @@ RULE = ("step cases: every script over {a, Enter, CPR, c-j} up to the tier's len
         "key, or a CPR")
 EXHAUSTIVE = True
 EXHAUSTIVE_SCOPE = {
-    "quick": "step: scripts over {a,Enter,CPR,c-j} len<=3 with >=1 accepting key, all chunkings into writes, 4 "
-             "schedule patterns; key-buffer layer: scripts over {a,Enter,c-x,c-space c-c,c-c} len<=3, 2-4 chunkings, "
+    "quick": "step: scripts over {a,Enter,CPR,c-j} len<=3 with >=1 accepting key, all chunkings into writes (len 3: "
+             "3 chunkings), 4 schedule patterns; CPR-answering output: scripts over {a,Enter,CPR} len<=3, all "
+             "chunkings, 4 patterns around the CPR wait; key-buffer layer: scripts over {a,Enter,c-x,c-space c-c,c-c} len<=3, 2-4 chunkings, "
              "schedule patterns with and without the flush timer",
     "thorough": "step: scripts over {a,Enter,CPR,c-j,b} len<=3 all chunkings (len 4: 2 chunkings), 4 schedule "
-                "patterns; key-buffer layer: scripts over {a,Enter,c-x,c-space c-c,c-c,esc-Enter,CPR,esc-q} len<=2 "
+                "patterns; CPR-answering output: scripts over {a,Enter,CPR,c-j} len<=3, all chunkings, 4 patterns "
+                "around the CPR wait; key-buffer layer: scripts over {a,Enter,c-x,c-space c-c,c-c,esc-Enter,CPR,esc-q} len<=2 "
                 "all chunkings (len 3 and, over the first five, len 4: 2 chunkings), patterns with and "
                 "without the flush timer"}
 TRUSTED = ["harness/c17.py: token table (bytes <-> key code), the stepper that calls the registered reader callback, "
@@ -90,15 +97,17 @@ TRUSTED = ["harness/c17.py: token table (bytes <-> key code), the stepper that c
 ASSUMPTIONS = ["asyncio runs callbacks of one loop one at a time (the model's events are atomic)",
                "bytes -> key presses is a function of the concatenated byte stream (property C03); incomplete escape "
                "sequences are not flushed by a timer in the byte-cut cases (ttimeoutlen raised to 30 s there)",
-               "one pipe input = one typeahead hash; DummyOutput (no CPR requests are pending: "
-               "renderer.waiting_for_cpr is False)"]
+               "one pipe input = one typeahead hash; outputs: DummyOutput (no CPR requests) and Vt100_Output on a "
+               "fake tty (CPR request at every start; the 1 s timeout of wait_for_cpr_responses is shortened to "
+               "0.08 s in the harness, a timer value only)"]
 PARTIAL_SCOPE = ["the parser's flush timer (flush_input / ttimeoutlen) is not modelled: scripts contain no lone Escape; "
                  "the key processor's flush timer (_Flush / timeoutlen) is an event of the second-layer model only",
                  "handlers that feed keys (c-j) are in the first layer only; the second layer's concrete registry "
                  "covers the keys the scripts use (c-x prefix, c-x c-x, escape Enter, escape + unbound key, "
                  "c-space c-c), its theorems cover every registry",
-                 "renderer.waiting_for_cpr branch of read_from_input and wait_for_cpr_responses (needs a terminal "
-                 "that answers CPR requests) are not modelled",
+                 "the CPR wait of the exit path (renderer.waiting_for_cpr branch of read_from_input, "
+                 "wait_for_cpr_responses) is in the first-layer model only; `cpr_support` NOT_SUPPORTED (decided by a "
+                 "2 s timer) is not modelled",
                  "exceptions inside handlers (process_keys' reset()+empty_queue() path), run_in_terminal, "
                  "several inputs/applications at once, validators that reject the line",
                  "OS pipe, thread and event-loop scheduling: sampled by the e2e cases, not proved"]
@@ -139,6 +148,8 @@ def tok_bytes(t: str) -> bytes:
         return b"\x1b\r"
     if t.startswith("EX:"):                # escape + a character without binding
         return b"\x1b" + t[3:].encode("utf-8")
+    if t.startswith("EARG:"):              # escape digit: numeric argument
+        return b"\x1b" + t[5:].encode()
     if t in SPECIAL:
         return SPECIAL[t][0]
     assert len(t) == 1, t
@@ -159,6 +170,8 @@ def tok_codes(t: str):
         return [ESC, -1]
     if t.startswith("EX:"):
         return [ESC, ord(t[3:])]
+    if t.startswith("EARG:"):
+        return [ESC, ord(t[5:])]
     return [tok_code(t)]
 
 
@@ -192,6 +205,34 @@ def enc_res(results) -> str:
 
 
 # ------------------------------------------------------------------ real code: stepper
+class FakeTty(io.StringIO):
+    """a terminal that swallows what is drawn but says it is a tty: Vt100_Output on it answers
+    `responds_to_cpr`, so the renderer sends CPR requests and the exit path waits for the answers"""
+    encoding = "utf-8"
+
+    def isatty(self):
+        return True
+
+
+CPR_WAIT_S = 0.08      # `wait_for_cpr_responses(timeout=1)` shortened (a timer value, not logic)
+
+
+def make_session(inp, case, **kw):
+    if case.get("out") == "cpr":
+        os.environ.pop("PROMPT_TOOLKIT_NO_CPR", None)
+        out = Vt100_Output(FakeTty(), lambda: Size(rows=40, columns=80), term="xterm")
+        assert out.responds_to_cpr
+    else:
+        out = DummyOutput()
+    session = PromptSession(input=inp, output=out, **kw)
+    if case.get("out") == "cpr":
+        r = session.app.renderer
+        r.CPR_TIMEOUT = 100000          # never decide "terminal does not support CPR" in a test
+        orig = r.wait_for_cpr_responses
+        r.wait_for_cpr_responses = lambda timeout=1: orig(timeout=CPR_WAIT_S)
+    return session
+
+
 class Abort(Exception):
     """interrupt_exception used where a KeyboardInterrupt would tear down the harness' own loop"""
 
@@ -225,9 +266,11 @@ async def _step_async(case) -> _Run:
     loop = asyncio.get_running_loop()
     k = case["k"]
     with create_pipe_input() as inp:
-        session = PromptSession(input=inp, output=DummyOutput(), interrupt_exception=Abort)
+        session = make_session(inp, case, interrupt_exception=Abort)
         app = session.app
         fd = inp.fileno()
+        cpr_out = case.get("out") == "cpr"
+        in_wait = [False]
         limit = [1024]
         pipe_toks = []                      # tokens written and not yet read: [token, bytes left]
         orig_read = inp.stdin_reader.read
@@ -275,8 +318,14 @@ async def _step_async(case) -> _Run:
                 buf = "- -"
             q = [kp_code(x) for x in app.key_processor.input_queue]
             ta = [kp_code(x) for x in _typeahead_peek(inp)]
-            kb = f"kb={enc_keys(kp_code(x) for x in app.key_processor.key_buffer)} " if layer_b else ""
-            run.lines.append(f"run={int(running)} done={done_kind()} buf={buf} {kb}q={enc_keys(q)} "
+            if layer_b:
+                a = app.key_processor.arg
+                a = "-" if not running else "N" if a is None else str(int(a))
+                kb = f"arg={a} kb={enc_keys(kp_code(x) for x in app.key_processor.key_buffer)} "
+            else:
+                kb = ""
+            exw = "" if layer_b else f"ex={int(in_wait[0])} w={len(app.renderer._waiting_for_cpr_futures)} "
+            run.lines.append(f"run={int(running)} {exw}done={done_kind()} buf={buf} {kb}q={enc_keys(q)} "
                              f"ta={enc_keys(ta)} res={enc_res(run.results)}")
             if app.is_done and app.key_processor.key_buffer:
                 run.notes.append(("key buffer | keys left in the key buffer of a finished application",
@@ -348,8 +397,24 @@ async def _step_async(case) -> _Run:
                         run.lines.append("exception in read_from_input: " + type(e).__name__)
                 limit[0] = 1024
             elif op == "F":
-                if task is not None and app.is_done:
+                if task is not None and app.is_done and app._is_running:
+                    if cpr_out:
+                        # `await f` returns; the exit path runs up to the CPR wait (or to its end)
+                        for _ in range(20):
+                            await asyncio.sleep(0)
+                            if not app._is_running:
+                                break
+                        if task.done() or not app.renderer.waiting_for_cpr:
+                            await collect()
+                        else:
+                            in_wait[0] = True
+                    else:
+                        await collect()
+            elif op == "E":
+                # the CPR wait ends (answers, or its timeout); whatever is readable is read first
+                if task is not None and in_wait[0]:
                     await collect()
+                    in_wait[0] = False
             elif op == "T":
                 # let the key processor's flush timer (timeoutlen = 1 ms here) fire; when the
                 # flushed key ends the application, the application finishes
@@ -363,7 +428,7 @@ async def _step_async(case) -> _Run:
             observe()
         if task is not None:
             # prompt still waiting for input: end it (not part of the comparison)
-            if app.future is not None and not app.is_done:
+            if app.future is not None and not app.is_done and app._is_running:
                 app.exit(exception=EOFError())
             try:
                 await asyncio.wait_for(task, WATCHDOG_S)
@@ -464,7 +529,7 @@ async def _e2e_async(case) -> _Run:
     chunks = _chunks_of(case)
     delays = case.get("delays") or [0]
     with create_pipe_input() as inp:
-        session = PromptSession(input=inp, output=DummyOutput(), interrupt_exception=Abort)
+        session = make_session(inp, case, interrupt_exception=Abort)
         if case.get("tt") is not None:
             session.app.ttimeoutlen = case["tt"]
 
@@ -511,7 +576,7 @@ def real_run(case) -> _Run:
         return run
     if case["kind"] == "step":
         run = _new_loop_run(_step_async(case))
-    elif case["mode"] == "async":
+    elif case["mode"] in ("async", "cprwait"):
         run = _new_loop_run(_e2e_async(case))
     else:
         run = _e2e_sync(case)
@@ -537,7 +602,7 @@ def _new_loop_run(coro):
 def model_lines(case):
     pre = "B" if case.get("layer") == "B" else ""
     if case["kind"] == "step":
-        out = [f"{pre}init {case['k']}"]
+        out = [f"{pre}init {case['k']}" + ("" if pre else f" {int(case.get('out') == 'cpr')}")]
         for ev in case["events"]:
             if ev[0] == "W":
                 out.append(f"{pre}W " + enc_keys(c for t in ev[1] for c in tok_codes(t)))
@@ -546,9 +611,13 @@ def model_lines(case):
             else:
                 out.append(pre + ev[0])
         # after the schedule: what is left unconsumed
-        out.append(f"{pre}E2E " + str(case["k"]) + " " + _sched_tokens(case["events"]))
+        out.append(f"{pre}E2E " + str(case["k"]) + _rflag(case, pre) + " " + _sched_tokens(case["events"]))
         return out
-    return [f"{pre}E2E " + str(case["k"]) + " " + _sched_tokens(case["msched"])]
+    return [f"{pre}E2E " + str(case["k"]) + _rflag(case, pre) + " " + _sched_tokens(case["msched"])]
+
+
+def _rflag(case, pre):
+    return "" if pre else f" {int(case.get('out') == 'cpr')}"
 
 
 def _sched_tokens(events):
@@ -585,50 +654,74 @@ def expected(tokens, k):
     i = 0
     n = len(tokens)
     pending_cx = False
+    arg = [None]                           # the numeric argument typed with escape-digit
+
+    def count():
+        a, arg[0] = arg[0], None
+        return 1 if a is None or a >= 1000000 else a
+
     while i < n and len(results) < k:
         t = tokens[i]
         i += 1
         if t.startswith("CPR:"):
-            continue
+            continue                       # not a key: argument, pending prefix, everything stays
         if t == "CX":
             if pending_cx:                 # c-x c-x: jump between line start and line end
+                count()
                 cur = 0 if cur == len(text) else len(text)
             pending_cx = not pending_cx
             continue
-        pending_cx = False                 # c-x followed by a key without binding is dropped
+        if pending_cx:                     # c-x followed by another key: c-x alone is an ignored key
+            count()                        # (its handler uses up the argument)
+        pending_cx = False
+        if t.startswith("EARG:"):
+            d = int(t[5:])
+            arg[0] = d if arg[0] is None else arg[0] * 10 + d
+            continue
+        if len(t) == 1 and t.isdigit() and arg[0] is not None:
+            arg[0] = arg[0] * 10 + int(t)
+            continue
         if t == "CSPACE":
+            count()
             continue                       # (the generator puts c-c right behind it)
-        if t.startswith("EX:"):            # escape is ignored, the character is typed
+        if t.startswith("EX:"):            # escape is ignored (it uses up the argument), the character is typed
+            count()
             t = t[3:]
         if t in ("ENTER", "CJ", "EENTER"):
             results.append((-1, "".join(text)))
             text, cur = [], 0
+            arg[0] = None
         elif t == "CC":
             results.append((-2, "".join(text)))
             text, cur = [], 0
+            arg[0] = None
         elif t == "BS":
-            if cur > 0:
-                del text[cur - 1]
-                cur -= 1
+            m = min(count(), cur)
+            del text[cur - m:cur]
+            cur -= m
         elif t == "DEL":
-            if cur < len(text):
-                del text[cur]
+            del text[cur:cur + count()]
         elif t in ("LEFT", "LEFT2", "CB"):
-            cur = max(0, cur - 1)
+            cur = max(0, cur - count())
         elif t in ("RIGHT", "CF"):
-            cur = min(len(text), cur + 1)
+            cur = min(len(text), cur + count())
         elif t in ("HOME", "CA"):
+            count()
             cur = 0
         elif t in ("END", "CE"):
+            count()
             cur = len(text)
         elif t == "CK":
+            count()
             del text[cur:]
         elif t == "CU":
+            count()
             del text[:cur]
             cur = 0
         else:
-            text.insert(cur, t)
-            cur += 1
+            m = count()
+            text[cur:cur] = [t] * m
+            cur += m
     left = [c for t in tokens[i:] if not t.startswith("CPR:") for c in tok_codes(t)]
     return results, left
 
@@ -781,6 +874,71 @@ def mk_step(toks_events, k):
     return {"kind": "step", "k": k, "events": toks_events + completion(k), "complete": True}
 
 
+# ---- an output that answers CPR requests: the finished application waits for the answers
+def completion_cpr(k):
+    ev = []
+    for _ in range(k + 1):
+        ev += [["S"], ["R", 100000], ["F"], ["E"]]
+    return ev
+
+
+def mk_step_cpr(events, k):
+    return {"kind": "step", "out": "cpr", "k": k, "events": events + completion_cpr(k), "complete": True}
+
+
+def pattern_events_cpr(toks, sizes, pat):
+    chunks, a = [], 0
+    for sz in sizes:
+        chunks.append(toks[a:a + sz])
+        a += sz
+    ev = [["S"]]
+    if pat == "during":        # later chunks are read while the finished prompt waits for the answer
+        for c in chunks:
+            ev += [["W", c], ["R", 100000], ["F"]]
+        ev += [["E"]]
+    elif pat == "each":        # the wait ends (timeout / answer) before the next chunk
+        for c in chunks:
+            ev += [["W", c], ["R", 100000], ["F"], ["E"], ["S"]]
+    elif pat == "implicit":    # partial read, the rest is read by the loop during the wait
+        for c in chunks:
+            ev += [["W", c], ["R", 1], ["F"], ["E"], ["S"]]
+    elif pat == "pre":
+        ev = [["W", c] for c in chunks]
+    return ev
+
+
+def rand_events_cpr(rng, toks, k):
+    ev, i = [], 0
+    while i < len(toks):
+        r = rng.random()
+        if r < 0.35:
+            n = rng.choice([1, 1, 2, 3, 5, len(toks)])
+            ev.append(["W", toks[i:i + n]])
+            i += n
+        elif r < 0.6:
+            ev.append(["R", rng.choice([1, 2, 100000, 100000])])
+        elif r < 0.72:
+            ev.append(["S"])
+        elif r < 0.88:
+            ev.append(["F"])
+        else:
+            ev.append(["E"])
+    return ev
+
+
+def mk_e2e_cprwait(rng, toks, k):
+    """every line in its own chunk, a little later than the previous one: line i+1 arrives while
+    prompt i (accepted, CPR request unanswered) is still attached to the input"""
+    cuts = [j + 1 for j, t in enumerate(toks) if t in FIN and j + 1 < len(toks)]
+    case = {"kind": "e2e", "out": "cpr", "mode": "cprwait", "k": k, "script": toks, "cuts": cuts,
+            "delays": [rng.choice([15, 25, 35])]}
+    sched = [["W", toks]]
+    for _ in range(k + 1):
+        sched += [["S"], ["R", 100000], ["F"], ["E"]]
+    case["msched"] = sched
+    return case
+
+
 # ---- second layer: key sequences of several key presses (key buffer), flush timer
 def completion_b(k):
     ev = []
@@ -838,8 +996,16 @@ def rand_units_b(rng, nlines, cpr_p):
                 units.append(["CX", "CX"])
             elif r < 0.7:
                 units += [["CX"], [f"CPR:{rng.randrange(1, 60)};{rng.randrange(1, 200)}"], ["CX"]]
-            elif r < 0.8:
+            elif r < 0.76:
                 units.append(["EX:" + rng.choice("qzx")])
+            elif r < 0.8:
+                # numeric argument, often with a CPR report between the argument and its key
+                units.append(["EARG:" + rng.choice("234")])
+                if rng.random() < 0.3:
+                    units.append(["EARG:" + rng.choice("012")])
+                if rng.random() < 0.6:
+                    units.append([f"CPR:{rng.randrange(1, 60)};{rng.randrange(1, 200)}"])
+                units.append([rng.choice(["x", "z", "BS", "LEFT", "RIGHT", "DEL", "CX", "q"])])
             else:
                 units.append([rng.choice(["BS", "LEFT", "RIGHT", "CA", "CE", "HOME", "END", "CB", "CF"])])
         r = rng.random()
@@ -1019,6 +1185,8 @@ def cases(tier, rng):
             if n == 4:
                 # all-in-one and one seeded chunking
                 comps = [comps[0], comps[rng.randrange(1, len(comps))]]
+            elif quick and n == 3:
+                comps = [comps[0], comps[-1], comps[rng.randrange(1, len(comps) - 1)]]
             for sizes in comps:
                 for pat in ("pre", "inter", "late", "stale"):
                     if pat == "pre" and len(sizes) > 1:
@@ -1042,6 +1210,32 @@ def cases(tier, rng):
         toks = inject_cpr(rng, rand_script(rng, nl, rich=True), p=rng.choice([0, 0.1, 0.25]))
         k = fins(toks)
         yield mk_e2e(rng, mode, toks, k)
+    # ---- output that answers CPR requests: the CPR wait of the finished application
+    c_alpha = ["a", "ENTER", "CPR:3;7"] if quick else ["a", "ENTER", "CPR:3;7", "CJ"]
+    for n in range(1, 4):
+        for tup in itertools.product(c_alpha, repeat=n):
+            toks = list(tup)
+            k = fins(toks)
+            if k == 0:
+                continue
+            for sizes in compositions(n):
+                for pat in ("pre", "during", "each", "implicit"):
+                    if pat == "pre" and len(sizes) > 1:
+                        continue
+                    if quick and pat == "implicit" and len(sizes) not in (1, n):
+                        continue
+                    yield mk_step_cpr(pattern_events_cpr(toks, sizes, pat), k)
+    ncpr = 50 if quick else 800
+    for _ in range(ncpr):
+        nl = rng.choice([1, 2, 2, 3])
+        toks = inject_cpr(rng, rand_script(rng, nl, rich=True), p=rng.choice([0, 0.1, 0.3]))
+        k = fins(toks)
+        yield mk_step_cpr(rand_events_cpr(rng, toks, k), k)
+    ncw = 16 if quick else 120
+    for _ in range(ncw):
+        nl = rng.choice([2, 2, 3])
+        toks = inject_cpr(rng, rand_script(rng, nl, rich=True, tail=False), p=rng.choice([0, 0, 0.08]))
+        yield mk_e2e_cprwait(rng, toks, fins(toks))
     # ---- second layer (key buffer): exhaustive small scope
     b_small = [["a"], ["ENTER"], ["CX"], ["CSPACE"], ["CC"]]
     b_alpha = b_small + ([] if quick else [["EENTER"], ["CPR:3;7"], ["EX:q"]])
@@ -1068,6 +1262,30 @@ def cases(tier, rng):
                     if ((quick and n == 3) or n == 4) and pat in ("inter", "late"):
                         continue
                     yield mk_step_b(pattern_events_b(units, sizes, pat), k)
+    # ---- second layer: a CPR report between a numeric argument and the key it applies to
+    arg_scripts = [
+        [["a"], ["EARG:3"], ["CPR:12;1"], ["x"], ["ENTER"]],
+        [["EARG:2"], ["CPR:5;5"], ["CPR:6;6"], ["y"], ["z"], ["ENTER"]],
+        [["a"], ["b"], ["c"], ["EARG:2"], ["CPR:3;3"], ["BS"], ["ENTER"]],
+    ]
+    if not quick:
+        arg_scripts += [
+            [["a"], ["ENTER"], ["EARG:1"], ["EARG:2"], ["CPR:9;9"], ["x"], ["ENTER"]],
+            [["a"], ["b"], ["c"], ["CA"], ["EARG:2"], ["CPR:1;1"], ["RIGHT"], ["x"], ["CC"]],
+            [["EARG:3"], ["CX"], ["CPR:2;2"], ["q"], ["ENTER"]],
+        ]
+    for units in arg_scripts:
+        toks = flatten_units(units)
+        comps = list(compositions(len(units)))
+        if quick:
+            comps = [comps[0], comps[-1]] + [comps[rng.randrange(1, len(comps) - 1)] for _ in range(2)]
+        for sizes in comps:
+            for pat in ("pre", "inter", "interT", "late"):
+                if pat == "pre" and len(sizes) > 1:
+                    continue
+                yield mk_step_b(pattern_events_b(units, sizes, pat), fins(toks))
+        for mode in ("pre", "thread", "async"):
+            yield mk_e2e_b(rng, mode, units)
     # ---- second layer: random step cases and end to end
     nb = 60 if quick else 1000
     for _ in range(nb):
@@ -1108,6 +1326,8 @@ def distribution(cases_):
         key = c["kind"] if c["kind"] == "step" else "e2e:" + c["mode"]
         if c.get("layer") == "B":
             key += ":keybuffer"
+        if c.get("out") == "cpr":
+            key += ":cpr-output"
         d["kind"][key] = d["kind"].get(key, 0) + 1
         d["prompts"][str(c["k"])] = d["prompts"].get(str(c["k"]), 0) + 1
         toks = case_tokens(c)
